@@ -564,6 +564,37 @@ fn build_write_script(rng: &mut Rng, w: u64) -> Vec<WStep> {
         s.push(WStep::FlushFile);
         return s;
     }
+    if w % 16 == 14 || w % 16 == 7 {
+        // family H (version 3 for w = 14 mod 16, version 4 for w = 7 mod 16): a set_len that
+        // moves the stream to another chain (small -> large, large -> small) or releases it
+        // fails under the sweep and - in the runs that do not repeat it - the caller simply
+        // goes on: overwrites a few bytes inside the stream and flushes.  The stream is then
+        // as before or resized (with the overwrite), for a fresh handle and, since that flush
+        // rewrites the directory entry, in the stored bytes as well.
+        for (name, lens) in [("/g", &[100usize][..]), ("/r", &[1024, 1024, 1024, 1024, 904][..]), ("/z", &[1024, 1024, 1024, 928][..]), ("/keep", &[300][..])] {
+            s.push(WStep::OpenNew { slot: 0, path: name.into() });
+            for l in lens {
+                s.push(WStep::Write { slot: 0, len: *l });
+            }
+            s.push(WStep::CloseHandle { slot: 0 });
+        }
+        s.push(WStep::Marker);
+        let eps: &[(&str, u64)] = if (w / 16) % 2 == 0 { &[("/g", 5000), ("/r", 700), ("/z", 0)] } else { &[("/z", 0), ("/r", 700), ("/g", 5000)] };
+        for (name, n) in eps {
+            s.push(WStep::OpenExisting { slot: 0, path: (*name).into() });
+            s.push(WStep::SetLen { slot: 0, n: *n });
+            s.push(WStep::Seek { slot: 0, to: 10 });
+            s.push(WStep::Write { slot: 0, len: 20 });
+            s.push(WStep::FlushHandle { slot: 0 });
+            s.push(WStep::CloseHandle { slot: 0 });
+        }
+        s.push(WStep::OpenNew { slot: 1, path: "/d".into() });
+        s.push(WStep::Write { slot: 1, len: 500 });
+        s.push(WStep::FlushHandle { slot: 1 });
+        s.push(WStep::CloseHandle { slot: 1 });
+        s.push(WStep::FlushFile);
+        return s;
+    }
     if w % 16 == 2 || w % 16 == 11 {
         // family G (version 3 for w = 2 mod 16, version 4 for w = 11 mod 16): a call that
         // moves a stream between the mini stream and regular sectors, or releases its chain
@@ -871,6 +902,16 @@ struct HState {
     /// the taint comes from a failed set_len(n) and nothing else: the stream is then either
     /// as it was (all accepted bytes) or resized to n (zeros gained) - `Some(n)`
     failed_set_len: Option<u64>,
+    /// while `failed_set_len` is set: the other candidate (the stream as the failed set_len
+    /// would have left it), carried along through later writes and resizes
+    alt: Option<Vec<u8>>,
+    /// a write or a successful set_len came after the failed set_len: the next write-back
+    /// rewrites the directory entry, so that the stored bytes must agree with the live
+    /// object again from the next Ok flush on
+    healed: bool,
+    /// the directory entry in the file may still be what a failed, unrepeated set_len left
+    /// half-written (nothing has rewritten it since): the stored bytes are not compared
+    entry_may_lag: bool,
     /// value of `WState::taint_epoch` when the handle was opened
     epoch: u32,
 }
@@ -962,7 +1003,7 @@ fn w_exec(st: &mut WState, step: &WStep, rep: &mut Report) -> Result<Result<(), 
                         }
                         st.shared.pause_faults(false);
                     }
-                    st.handles[*slot] = Some(HState { stream: s, path: path.clone(), pos: 0, content, tainted, last_flush_failed: false, failed_set_len: None, epoch: st.taint_epoch });
+                    st.handles[*slot] = Some(HState { stream: s, path: path.clone(), pos: 0, content, tainted, last_flush_failed: false, failed_set_len: None, alt: None, healed: false, entry_may_lag: false, epoch: st.taint_epoch });
                     Ok(())
                 }
                 Err(e) => Err(e),
@@ -978,8 +1019,23 @@ fn w_exec(st: &mut WState, step: &WStep, rep: &mut Report) -> Result<Result<(), 
                         if k == 0 || k > *len {
                             return Err(("write | wrong count".to_string(), format!("write({len}) returned {k}")));
                         }
-                        h.failed_set_len = None;
                         let end = h.pos as usize + k;
+                        // the other candidate after a failed set_len takes the same bytes, as
+                        // long as the position lies inside it
+                        match h.alt.as_mut() {
+                            Some(a) if h.pos as usize <= a.len() => {
+                                if a.len() < end {
+                                    a.resize(end, 0);
+                                }
+                                a[h.pos as usize..end].copy_from_slice(&data[..k]);
+                                h.healed = true;
+                            }
+                            _ => {
+                                h.alt = None;
+                                h.failed_set_len = None;
+                            }
+                        }
+                        h.entry_may_lag = false;
                         if h.content.len() < end {
                             h.content.resize(end, 0);
                         }
@@ -1003,8 +1059,23 @@ fn w_exec(st: &mut WState, step: &WStep, rep: &mut Report) -> Result<Result<(), 
                         if k == 0 || k > data.len() {
                             return Err(("write_vectored | wrong count".to_string(), format!("write_vectored({first} + {len}) returned {k}")));
                         }
-                        h.failed_set_len = None;
                         let end = h.pos as usize + k;
+                        // the other candidate after a failed set_len takes the same bytes, as
+                        // long as the position lies inside it
+                        match h.alt.as_mut() {
+                            Some(a) if h.pos as usize <= a.len() => {
+                                if a.len() < end {
+                                    a.resize(end, 0);
+                                }
+                                a[h.pos as usize..end].copy_from_slice(&data[..k]);
+                                h.healed = true;
+                            }
+                            _ => {
+                                h.alt = None;
+                                h.failed_set_len = None;
+                            }
+                        }
+                        h.entry_may_lag = false;
                         if h.content.len() < end {
                             h.content.resize(end, 0);
                         }
@@ -1058,14 +1129,30 @@ fn w_exec(st: &mut WState, step: &WStep, rep: &mut Report) -> Result<Result<(), 
             None => Ok(()),
             Some(h) => match h.stream.set_len(*n) {
                 Ok(()) => {
+                    // (a set_len to the current length writes nothing)
+                    if h.content.len() as u64 != *n {
+                        h.entry_may_lag = false;
+                    }
                     h.content.resize(*n as usize, 0);
                     h.pos = h.pos.min(*n);
                     // a resize never changes the bytes it keeps, so after a set_len that
-                    // reports success the content is known again even if only an earlier
-                    // set_len attempt had made it uncertain: kept prefix, zeros gained
-                    if h.failed_set_len.take().is_some() {
-                        h.tainted = false;
-                        rep.count("set_len_recovered_content_known_again");
+                    // reports success both candidates left by an earlier failed set_len are
+                    // resized alike; when they coincide (the usual retry with the same
+                    // length) the content is known again: kept prefix, zeros gained
+                    if h.failed_set_len.is_some() {
+                        if let Some(a) = h.alt.as_mut() {
+                            a.resize(*n as usize, 0);
+                        }
+                        if h.alt.as_ref().map_or(true, |a| *a == h.content) {
+                            h.failed_set_len = None;
+                            h.alt = None;
+                            h.healed = false;
+                            h.tainted = false;
+                            rep.count("set_len_recovered_content_known_again");
+                        } else {
+                            h.healed = true;
+                            rep.count("set_len_after_a_failed_set_len_two_candidates_kept");
+                        }
                     }
                     // a set_len that reports success has resized the stream - also when an
                     // earlier attempt failed half-way (the content is then unknowable, the
@@ -1087,6 +1174,14 @@ fn w_exec(st: &mut WState, step: &WStep, rep: &mut Report) -> Result<Result<(), 
                 Err(e) => {
                     if !h.tainted {
                         h.failed_set_len = Some(*n);
+                        let mut a = h.content.clone();
+                        a.resize(*n as usize, 0);
+                        h.alt = Some(a);
+                        h.healed = false;
+                    } else {
+                        // a second failure: nothing is known any more
+                        h.failed_set_len = None;
+                        h.alt = None;
                     }
                     h.tainted = true;
                     Err(e)
@@ -1155,19 +1250,30 @@ fn w_exec(st: &mut WState, step: &WStep, rep: &mut Report) -> Result<Result<(), 
                             }
                         }
                         // after a set_len that failed and was not repeated, the stream is either as
-                        // before or resized: a fresh handle sees one of the two
+                        // before or resized (both candidates carried through the writes and
+                        // resizes since): a fresh handle sees one of the two, and from then on the
+                        // handle is judged like any other
                         if let (Some(n), false) = (h.failed_set_len, st.structure_tainted) {
                             let mut got = Vec::new();
                             st.shared.pause_faults(true);
                             let rb = st.cf.open_stream(&h.path).and_then(|mut f| f.read_to_end(&mut got));
                             st.shared.pause_faults(false);
                             if rb.is_ok() {
-                                let mut resized = h.content.clone();
-                                resized.resize(n as usize, 0);
+                                let resized = h.alt.clone().unwrap_or_else(|| h.content.clone());
                                 if got != h.content && got != resized {
-                                    return Err(("flush Ok | after a failed set_len the stream is neither as before nor resized".to_string(), format!("{}: {} bytes accepted, set_len({n}) failed and was not repeated, flush returned Ok; a fresh handle reads {} bytes{}", h.path, h.content.len(), got.len(), if got.len() == h.content.len() { format!(" ({})", engine::describe_bytes_diff(&h.content, &got)) } else { String::new() })));
+                                    return Err(("flush Ok | after a failed set_len the stream is neither as before nor resized".to_string(), format!("{}: {} bytes accepted, set_len({n}) failed and was not repeated, flush returned Ok; a fresh handle reads {} bytes{}", h.path, h.content.len(), got.len(), if got.len() == h.content.len() { format!(" ({})", engine::describe_bytes_diff(&h.content, &got)) } else if got.len() == resized.len() { format!(" ({})", engine::describe_bytes_diff(&resized, &got)) } else { String::new() })));
                                 }
                                 rep.count("ok_flush_after_unrepeated_failed_set_len_checked");
+                                // which of the two it was is known now
+                                h.content = got;
+                                h.alt = None;
+                                h.failed_set_len = None;
+                                h.tainted = false;
+                                // unless a write or resize since the failure made this flush
+                                // rewrite the directory entry, the stored entry may still be
+                                // what the failed call left half-written
+                                h.entry_may_lag = !h.healed;
+                                h.healed = false;
                             }
                         }
                         // a successful flush means durable: a fresh handle reads back every
@@ -1194,7 +1300,7 @@ fn w_exec(st: &mut WState, step: &WStep, rep: &mut Report) -> Result<Result<(), 
                                         rep.count("ok_flush_after_failed_flush_readbacks");
                                     }
                                     // "is in the compound file": the raw bytes, reopened, hold them too
-                                    if let Some(cf2) = reopened.as_mut() {
+                                    if let Some(cf2) = reopened.as_mut().filter(|_| !h.entry_may_lag) {
                                         let mut got2 = Vec::new();
                                         match cf2.open_stream(&path).and_then(|mut f| f.read_to_end(&mut got2)) {
                                             Ok(_) if got2 == want => rep.count("ok_flush_reopen_readbacks"),
